@@ -260,13 +260,35 @@ def h_step(mac, fam, letter, annots):
 
 
 # ------------------------------------------------------------------------------------------------ (b) DII+P / DUU+P
-def h_depth(mac, which, annots):
+U = {'prim': '$user_code'}
+BODIES = {   # code arguments the handler must treat as opaque: plain, empty, and bodies that LOOK like something the macro could merge with
+    'plain': [U],
+    'empty': [],
+    'two': [U, {'prim': 'DROP'}],
+    'single-DIP': [{'prim': 'DIP', 'args': [[U]]}],
+    'single-DIP-2': [{'prim': 'DIP', 'args': [{'int': '2'}, [U]]}],
+    'single-DIP-3-nested': [{'prim': 'DIP', 'args': [{'int': '3'}, [{'prim': 'DIP', 'args': [{'int': '2'}, [U]]}]]}],
+    'nested-seq-DIP-2': [[{'prim': 'DIP', 'args': [{'int': '2'}, [U]]}]],
+    'single-DUP-2': [{'prim': 'DUP', 'args': [{'int': '2'}]}],
+}
+
+
+def dip_effect_equal(code, n, body):
+    """z3 Bool: `code` has the effect of DIP n body on every stack (n concrete)"""
+    return effect(code) == effect([{'prim': 'DIP', 'args': [{'int': str(n)}, body]}])
+
+
+def h_depth(mac, which, annots, body_label='plain'):
+    import copy
+    body = copy.deepcopy(BODIES[body_label])
+
     def h(e: Engine):
         g = GLetters('run', 2)
         if which == 'DIP':
-            tag = 'expand_dixp'
+            tag = f'expand_dixp[body={body_label}]'
+            pristine = copy.deepcopy(body)
             try:
-                r = e.call(mac.expand_dixp, [g, [], [BODY]])
+                r = e.call(mac.expand_dixp, [g, [], [body]])
             except RaiseEx:
                 e.check(f'{tag}::safety.expands', z3.BoolVal(False))
                 return
@@ -275,7 +297,8 @@ def h_depth(mac, which, annots):
             e.check(f'{tag}::ensures.is(DIP n code)', z3.BoolVal(bool(shape)))
             if shape:
                 e.check(f'{tag}::ensures.n==number_of_I', Z(r['args'][0]['int'].v) == g.n)
-                e.check(f'{tag}::ensures.code_is_the_argument', z3.BoolVal(r['args'][1] == BODY or r['args'][1] == [BODY]))
+                e.check(f'{tag}::ensures.code_is_the_argument', z3.BoolVal(r['args'][1] == pristine or r['args'][1] == [pristine]))
+            e.check(f'{tag}::frame.code_argument_not_modified', z3.BoolVal(body == pristine))
         else:
             tag = f'expand_duxp[annots={"+".join(annots) or "none"}]'
             try:
@@ -442,6 +465,8 @@ def replay(case):
     """native replay of a dispatch witness: the name must be expanded by exactly one handler and have the documented meaning"""
     from props import C19 as B
     name = case.get('name')
+    if case.get('depth_body'):
+        return replay_depth(case)
     if not name:
         return False, 'symbolic induction step: concrete replays come from the bounded part (props.C19)'
     import pytezos  # noqa
@@ -467,6 +492,43 @@ def _names_for(oid):
     if 'expand_duxp' in oid:
         for n in range(2, 40):
             yield 'D' + 'U' * n + 'P'
+
+
+def replay_depth(case):
+    """native: expand DI..IP with the given code argument on the real code and compare its effect with DIP n body"""
+    import copy
+    import pytezos  # noqa
+    from pytezos.michelson import macros as mac
+    name, body = case['name'], copy.deepcopy(BODIES[case['body']])
+    n = len(name) - 2
+    try:
+        code = mac.expand_macro(prim=name, annots=[], args=[body])
+    except Exception as ex:   # noqa
+        return True, f'{name} {{ {case["body"]} body }}: {type(ex).__name__}: {ex}'
+    try:
+        goal = dip_effect_equal(code, n, BODIES[case['body']])
+    except Stuck as st:
+        return False, f'reference subset: {st}'
+    sol = z3.Solver()
+    sol.add(z3.Not(goal))
+    if sol.check() == z3.sat:
+        return True, f'{name} with the code argument {BODIES[case["body"]]} expands to {code}: not the effect of DIP {n} {{ code }}'
+    return False, f'{name} with body {case["body"]}: effect of DIP {n} {{ code }}'
+
+
+def _replayer_depth_body(label):
+    def native(case):
+        if not isinstance(case, dict) or 'name' not in case:
+            return False, 'no concrete name'
+        return replay_depth(case)
+
+    def search():
+        for n in range(2, 40):
+            c = dict(name='D' + 'I' * n + 'P', body=label, depth_body=True)
+            if replay_depth(c)[0]:
+                return c
+        return None
+    return (f'expand_dixp[body={label}]', 'props.C19_P:replay', native, search)
 
 
 def _replayer(oid_prefix):
@@ -506,9 +568,9 @@ def run_P(ck, mac):
                 run_harness(ck, eng, h_step(mac, fam, letter, annots), f'step[{fam},{letter}]')
                 report(ck, eng, [_replayer(h + '[') for h in HANDLERS[:6]], kind='P', prefix='step:')
                 functions_interpreted(ck, eng)
-    for which, annots in (('DIP', []), ('DUP', []), ('DUP', ['@x'])):
+    for which, annots, bl in [('DIP', [], b) for b in BODIES] + [('DUP', [], 'plain'), ('DUP', ['@x'], 'plain')]:
         eng = Engine()
-        run_harness(ck, eng, h_depth(mac, which, annots), f'depth[{which}]')
-        report(ck, eng, [_replayer(h) for h in HANDLERS[6:]], kind='P', prefix='depth:')
+        run_harness(ck, eng, h_depth(mac, which, annots, bl), f'depth[{which},{bl}]')
+        report(ck, eng, [_replayer_depth_body(b) for b in BODIES if b != 'plain'] + [_replayer(h) for h in HANDLERS[6:]], kind='P', prefix='depth:')
         functions_interpreted(ck, eng)
     dispatch_obligations(ck, mac)
